@@ -423,6 +423,16 @@ static std::string probe(const upa::url& u) {
     if (full_state(u) != full_state(f)) return "probe=DIFF:state";
     if (!(u == f) || std::hash<upa::url>{}(u) != std::hash<upa::url>{}(f)) return "probe=DIFF:eq-hash";
     if (!upa::equals(u, f, true) || u.serialize(true) != f.serialize(true)) return "probe=DIFF:serialize";
+    // the defaulted arguments of the equivalence functions (exclude_fragment = false)
+    if (!upa::equals(u, f) || u.serialize() != u.href() || f.serialize() != f.href()) return "probe=DIFF:equals-default";
+    {
+        upa::url g(f);
+        g.hash("verif-other-fragment");
+        if (g.pathname() == u.pathname() && g.search() == u.search()) {   // (an opaque path can lose trailing spaces when the fragment changes)
+            if (!upa::equals(u, g, true)) return "probe=DIFF:equals-exclude-fragment";
+            if (upa::equals(u, g) != (u.hash() == g.hash())) return "probe=DIFF:equals-with-fragment";
+        }
+    }
     for (int t = 0; t < upa::url::PART_COUNT; ++t) {
         const auto pt = static_cast<upa::url::PartType>(t);
         if (u.is_null(pt) != f.is_null(pt) || u.is_empty(pt) != f.is_empty(pt) || u.get_part_view(pt) != f.get_part_view(pt))
@@ -920,6 +930,12 @@ static std::string exec(const std::vector<std::string>& t, std::string& preds) {
         try {
             return with_arg(t[1], units, [&](auto&& a) {
                 upa::url_host h(a);
+                // special members of url_host: copies and moves carry type and text
+                upa::url_host c(h);
+                upa::url_host m(std::move(c));
+                upa::url_host as("x"); as = h;
+                upa::url_host am("y"); am = std::move(as);
+                if (m.type() != h.type() || m.to_string() != h.to_string() || am.type() != h.type() || am.to_string() != h.to_string()) return std::string("WIDTH-DIFF url_host copy/move");
                 return std::to_string(static_cast<int>(h.type())) + ":" + hx(h.to_string());
             });
         } catch (const upa::url_error&) { return "F"; }
